@@ -139,7 +139,8 @@ def run(tier):
             d = recs[bidx + 2].split()[1]
             d = "" if d == "-" else d
             if int(s0[1]) != off:
-                raise common.HarnessError("bin case: program length %s != %d" % (s0[1], off))
+                v.violation(case, "precondition:program-length-differs", "assembled %s bytes, the fixed program has %d" % (s0[1], off))
+                continue
             try:
                 data = open(path, "rb").read().hex()
             except OSError:
